@@ -31,6 +31,7 @@ EXPLANATION = (
     "_next_tx keeps the transaction id in [1, 0xFFFE], changes it on every call including across the wrap, request_bytes replaces "
     "exactly bytes [0:2], and _send_request calls request_bytes() once per transport write. CRC values per argument are not decided."
     ' (R5, shared with C18.R1) every request is one fresh construction from the arguments of the call. R1 abstractly executes the builders on symbolic byte strings (bytearray index stores, bytes((..)) concatenation, x.to_bytes(2, order), helpers that append the CRC), R4 reads _next_tx as a guarded transition system with an inductive interval invariant.'
+    ' (R6, shared with C06.R9) the transport is written only by _send_request or helpers reached only from it.'
 )
 
 
